@@ -33,7 +33,7 @@ LIB_AXIOMS = {
     'bytes.decode': "bytes.decode('utf8', 'backslashreplace') is a total function dec_bsr that never raises; with any other error handler it may raise UnicodeDecodeError",
     'str.encode': "str.encode('utf8'/'utf-8') is the UTF-8 encoding (the representation of str values)",
     'str.format': "'{},{}'.format(s, int) encodes to utf8(s) ++ b',' ++ decimal(int)",
-    'time.time': 'time.time() returns the ghost clock `now` after an arbitrary non-negative computation delay accounted in `cpu` (A-REAL)',
+    'time.time': 'time.time() returns the ghost clock `now` after an arbitrary non-negative computation delay accounted in `cpu` (A-REAL); A-EPOCH: 0 <= now < 2^32-1',
     'logging': 'A-LOG: calls on _LOGGER neither raise nor change program state',
     'Lock': 'threading.Lock / asyncio.Lock is a non-re-entrant mutex; `with` releases on every exit',
     'Queue': 'asyncio.Queue() is an unbounded FIFO: empty(), put_nowait appends, get_nowait pops the head (QueueEmpty when empty)',
@@ -43,6 +43,10 @@ LIB_AXIOMS = {
     'open': 'open()/aiofiles.open() used as a context manager yields a file object or raises OSError; the file is closed on exit',
     'os': 'os.fstat/os.listdir/os.path.isdir/os.getlogin/socket.gethostname return unconstrained values (or raise OSError)',
 }
+
+
+# ghost fields that library handlers update directly (needed for the static write sets of loops)
+LIB_WRITES = {'time.time': ['now', 'cpu'], 'open': ['files_opened', 'fin', 'fpos'], 'aiofiles.open': ['files_opened', 'fin', 'fpos']}
 
 
 class World(object):
@@ -718,13 +722,13 @@ class World(object):
             module = ex.cur_module
 
             def elem(i, comp=comp, node=node, src=src):
-                saved = (ex.env, ex.cur_module)
-                ex.env, ex.cur_module = dict(env0), module
+                saved = (ex.env, ex.cur_module, ex.mode)
+                ex.env, ex.cur_module, ex.mode = dict(env0), module, 'code'
                 try:
                     ex.assign(comp.target, src.elem(i))
                     return ex.eval(node.elt)
                 finally:
-                    ex.env, ex.cur_module = saved
+                    ex.env, ex.cur_module, ex.mode = saved
             probe = elem(z3.Int('__probe_i'))
             return VSeq(src.length, elem, 'mapped', None)
         if isinstance(src, (VList, VTuple)):
@@ -1333,6 +1337,8 @@ def bi_time_time(w, ex, args, kwargs, node):
     ex.assume(d >= 0)
     G.fields['now'] = VReal(G.fields['now'].term + d)
     G.fields['cpu'] = VReal(G.fields['cpu'].term + d)
+    # A-EPOCH: the current time is a non-negative number of seconds that fits 32 bits (until 2106)
+    ex.assume(z3.And(G.fields['now'].term >= 0, G.fields['now'].term < TWO32 - 1))
     return G.fields['now']
 
 
@@ -1366,6 +1372,10 @@ def bi_open(w, ex, args, kwargs, node):
             raise RaiseSig(VExc('OSError'))
         G = ex.G
         G.fields['files_opened'] = VInt(G.fields['files_opened'].term + 1)
+        if 'w' not in mode:
+            # a freshly opened source: its own content, read position 0
+            G.fields['fin'] = VBytes(z3.Const(ex.fresh_name('G.fin'), Bytes), False)
+            G.fields['fpos'] = VInt(0)
         return VOpaque('FileW' if 'w' in mode else 'FileR', z3.Int(ex.fresh_name('file')))
     return VCtx(enter, lambda exc: None)
 
@@ -1404,21 +1414,29 @@ def bi_pathjoin(w, ex, args, kwargs, node):
 
 def sp_listdir_at(w, ex, node):
     p, i = _spec_args(ex, node)
+    if not isinstance(p, VStr):
+        return VStr('')             # not a path (an in-memory stream): there is no listing
     return VStr(LD_at(p.term, to_int(i)))
 
 
 def sp_listdir_len(w, ex, node):
     (p,) = _spec_args(ex, node)
+    if not isinstance(p, VStr):
+        return VInt(0)
     return VInt(LD_len(p.term))
 
 
 def sp_pathjoin(w, ex, node):
     a, b = _spec_args(ex, node)
+    if not isinstance(a, VStr) or not isinstance(b, VStr):
+        return VStr('')
     return VStr(PATHJOIN(a.term, b.term))
 
 
 def sp_isdir(w, ex, node):
     (p,) = _spec_args(ex, node)
+    if not isinstance(p, VStr):
+        return VBool(False)
     return VBool(ISDIR(p.term))
 
 
@@ -1747,4 +1765,5 @@ SPEC_FUNCS = {
 SPEC_CONSTS = {
     'TWO32': lambda w: VInt(TWO32),
     'EMPTY': lambda w: VBytes(b'', False),
+    'SLASH': lambda w: VStr('/'),
 }
